@@ -20,8 +20,13 @@ def run(chk):
         "type_info, and no child's TypeInfo.state is computed and dropped. R01b mutator pairing: an expression whose resolve can write variables/target "
         "(P-EFFECT, child evaluation and the balanced closure swap excluded) updates LocalEnv/ExternalEnv in type_info; no plain FunctionExpression "
         "writes either. R01c join discipline: LocalEnv/ExternalEnv/TypeState::merge put a binding into the result only through Details::merge/Kind::union. "
-        "R01d base cases: Literal::to_value and Literal::type_info agree per variant. Undecided: Op::type_info's kind tables, Kind::insert/at_path, "
-        "closure typing (upstream TODO #13782), stdlib type_defs beyond C03.")
+        "R01d base cases: Literal::to_value and Literal::type_info agree per variant. R01e operator result kinds: Op::type_info is evaluated by abstract "
+        "interpretation of its MIR (P-ABS, rules/tinfo.py) for every opcode except `??`/`==`/`!=`/`|` and every pair of operand kinds from a 16-element family; "
+        "for every (self variant, rhs variant) inside the operand kinds for which the operator's run-time method can return Ok, the Value variant it returns "
+        "(read from the method's MIR with P-VAR: From/Into conversions, float_result, operands handed back) must be inside the result kind. For `||` the "
+        "value try_or's closure yields is the right operand (C09 R09a/b), for `&&` a null left operand yields a boolean. Undecided: Kind::insert/at_path/"
+        "merge (collection kinds: all objects and arrays are one abstract kind here), closure typing (upstream TODO #13782), stdlib type_defs beyond C03, "
+        "operators on compile-time constants.")
     chk.assumptions += ["FunctionExpressionAdapter::type_info returns the incoming state unchanged (read once; re-checked by R01b's adapter clause)"]
     typestate.rule_state_threading(chk, "R01a")
     typestate.rule_mutator_pairing(chk, "R01b")
@@ -69,3 +74,72 @@ def run(chk):
         if not ok:
             chk.violation(rid, "src/compiler/expression/literal.rs", LITERAL, "Literal::%s" % var,
                           "literal %s evaluates to %s but is typed %s (expected %s / %s)" % (var, got.get("value"), got.get("type"), want_v, want_t), detail=d)
+
+    rule_r01e(chk)
+
+
+def rule_r01e(chk):
+    import arith
+    import tinfo
+    from p_c02 import OP_TYPE_INFO, KIND_OF, VAR_OF, kind_family
+    facts = chk.facts
+    rid = "R01e"
+    chk.rule(rid, "Op::type_info's result kind contains every Value variant the operator can return for operands inside the operand kinds", floor=10)
+    if not facts.has(OP_TYPE_INFO):
+        chk.fail_closed(rid, "anchor not found: %s" % OP_TYPE_INFO)
+        return
+    table = {"Add": "try_add", "Sub": "try_sub", "Mul": "try_mul", "Div": "try_div", "Gt": "try_gt", "Ge": "try_ge", "Lt": "try_lt", "Le": "try_le",
+             "And": "try_and", "Or": "try_or"}
+    fam = kind_family()
+    for opc, mname in table.items():
+        if not facts.has(arith.method(mname)):
+            chk.fail_closed(rid, "anchor not found: %s" % arith.method(mname))
+            continue
+        res = arith.result_variants(facts, mname)
+        if not res:
+            chk.fail_closed(rid, "%s: no Ok result producer recognised" % mname)
+            continue
+        unknown = sorted(k for k, v in res.items() if "?" in v) if opc != "Or" else []
+        n_eval = 0
+        bad = []
+        undecided = None
+        for kl in fam:
+            for kr in fam:
+                selfv = tinfo.Enum("compiler::expression::op::Op", None, {"lhs": tinfo.boxed(tinfo.Expr("lhs")), "rhs": tinfo.boxed(tinfo.Expr("rhs")),
+                                                                           "opcode": tinfo.Enum("parser::ast::Opcode", opc)})
+                try:
+                    td, it = tinfo.evaluate_type_info(facts, OP_TYPE_INFO, selfv, {"lhs": tinfo.TD(kl), "rhs": tinfo.TD(kr)})
+                except tinfo.Undecided as e:
+                    undecided = str(e)
+                    break
+                n_eval += 1
+                for a in sorted(kl):
+                    for c in sorted(kr):
+                        if opc == "And" and a == "null":
+                            got = {"Boolean"}
+                        else:
+                            got = set(res.get((VAR_OF[a], VAR_OF[c]), ()))
+                        if opc == "Or" and "?" in got:
+                            got = (got - {"?"}) | {VAR_OF[c]}
+                        for v in sorted(got - {"?"}):
+                            if KIND_OF[v] not in td.kind:
+                                bad.append((len(kl) + len(kr), sorted(kl), sorted(kr), a, c, v, sorted(td.kind)))
+            if undecided:
+                break
+        d = {"opcode": opc, "method": mname, "configurations_evaluated": n_eval, "result_table_pairs": len(res), "unclassified_producers": unknown[:4],
+             "mismatches": len(bad)}
+        if undecided:
+            chk.instance(rid, d, ok=None)
+            chk.fail_closed(rid, "Op::type_info could not be evaluated abstractly for `%s`: %s" % (opc, undecided))
+            continue
+        if unknown:
+            chk.note(rid, "%s: %d variant pairs have a result producer the rule cannot classify (unarmed for those pairs)" % (mname, len(unknown)))
+        chk.instance(rid, d, ok=not bad)
+        if bad:
+            bad.sort()
+            _, kl, kr, a, c, v, tk = bad[0]
+            d["first"] = {"lhs_kind": kl, "rhs_kind": kr, "operands": [a, c], "returns": v, "typed_as": tk}
+            sym = {"Add": "+", "Sub": "-", "Mul": "*", "Div": "/", "Gt": ">", "Ge": ">=", "Lt": "<", "Le": "<=", "And": "&&", "Or": "||"}[opc]
+            chk.violation(rid, "src/compiler/expression/op.rs", OP_TYPE_INFO, "opcode %s result kind for (%s, %s)" % (opc, "|".join(kl), "|".join(kr)),
+                          "`%s` with operand kinds (%s, %s) is typed %s, but for operands (%s, %s) %s returns a %s: the value is outside its compile-time type "
+                          "(%d operand configurations affected)" % (sym, "|".join(kl), "|".join(kr), "|".join(tk), a, c, mname, v.lower(), len(bad)), detail=d)
